@@ -327,7 +327,7 @@ Section Items.
     unfold item_atoms. apply in_concat.
     exists (byval (s_root s) alloc compact cut_heap mx (field_pty s f)). split.
     - apply in_map. rewrite item_field_types_eq. apply in_or_app. left. apply in_map. exact Hf.
-    - unfold field_pty. rewrite Hbox.
+    - unfold field_pty, fi_emit_boxed. rewrite Hbox. cbn [andb].
       assert (Hpl : tp_plain (fi_path f) = true).
       { unfold items_plain in Hplain. rewrite forallb_forall in Hplain.
         specialize (Hplain _ Hin). cbn [snd] in Hplain.
